@@ -59,9 +59,7 @@ def report(c, res, deaths, items):
             key = classify(case, ev)
             seen[key] = seen.get(key, 0) + 1
             if seen[key] <= 2:
-                r2, d2 = c.run_worker("pe", [(sc, items[sc])], parallel=1)
-                if sc not in d2 and (r2.get(sc) or [{}])[0].get("agree", True):
-                    raise vf.FrameworkError("disagreement on layout %s not reproduced" % sc)
+                c.reproduce("pe", sc, lambda evs: any(not e.get("agree", True) for e in evs))
             what = "library digest differs from SHA-256 over the specification's ranges" if not ev.get("digest_equal") else \
                 "byte flip: %s" % (ev.get("flip_bad") or [None])[0]
             c.report(key, what, dict({"case": case, "event": ev}, **c.rp("pe", items[sc])))
